@@ -89,3 +89,22 @@ Proof.
   simpl in Hok. destruct Hok as (_ & s & ->). right. exists s. auto.
 Qed.
 Print Assumptions C12_confined_walkers.
+
+(* ---------- where the full statement fails on the faithful model (known findings F16a, F16b) ---------- *)
+(* "Each name is always replaced by the same pseudonym": the model - like the code - replaces a collection named in a
+   NESTED sub-pipeline, and the string form of $out, by the generic placeholder instead. The witness, replayed on the
+   implementation, is the finding (known_findings.json); the theorems above therefore speak about first-level stages. *)
+From Gen Require Import Tables Consts.
+Theorem C12_nested_and_string_forms_refuted :
+  let c := {| repl := "REDACTED"; nums := false; bools := false; ips := false; nss := true; eager := []; re := None |} in
+  exists v p q s,
+    jget v p = Some (JStr "orders") /\ jget v q = Some (JStr "orders") /\ jget v s = Some (JStr "orders") /\
+    let out := cmd_member current current_consts c (real_actions current_consts c None) false false "pipeline" v in
+    jget out p = Some (JStr (Hash.hash_name "REDACTED" "orders")) /\
+    jget out q = Some (JStr "REDACTED") /\ jget out s = Some (JStr "REDACTED").
+Proof.
+  exists (JArr [JObj [("$lookup", JObj [("from", JStr "orders"); ("pipeline", JArr [JObj [("$lookup", JObj [("from", JStr "orders"); ("as", JStr "j")])]]); ("as", JStr "k")])];
+                JObj [("$out", JStr "orders")]]), [0; 0; 0], [0; 0; 1; 0; 0; 0], [1; 0].
+  vm_compute. repeat split; reflexivity.
+Qed.
+Print Assumptions C12_nested_and_string_forms_refuted.
